@@ -213,6 +213,12 @@ func GenExpr(r *Rand) Expr {
 		{"eval(\".a\")", "eval", true, false},
 		{"error(\"boom\")", "error", false, false},
 		{"select(.a > " + n + ") | error(\"boom at \" + .id)", "error", false, false},
+		{"setpath([\"a\"]; 9)", "paths", true, true},
+		{"setpath([\"c\", \"deep\"]; .a)", "paths", true, true},
+		{"delpaths([[\"a\"], [\"c\", \"x\"]])", "paths", true, true},
+		{"[paths] | length", "paths", false, false},
+		{"[paths(type == \"!!int\")]", "paths", false, false},
+		{"pick([\"id\", \"c\"]) | .c |= pick([\"x\"])", "paths", false, false},
 		{".d[5] = 1", "assign", true, true},
 		// literals of the expression that are updated with document data: the parsed tree must not keep the update
 		{".new = {\"n\": 0} | .new.n += .a", "literal-update", true, true},
